@@ -42,7 +42,7 @@ CHECKS = {
          "quick: word sets of size <= 2 and their complements (134 of 2048), enums of <= 3 variants; thorough: all 2048 sets, enums of <= 4 variants", "DESIGN.md §4 C18"),
  "C17": ("model_checking", "bounded-exhaustive enumeration of unknown names (edit-distance balls around every name) at every position of compiled receivers, built with the suggestions feature on and off; reference candidate lists + strsim arg-max",
          "odometer", "every (receiver, position, unknown name) triple within the edit-distance bound: the suggestion must be a maximal-similarity candidate above 0.8 from the reference candidate list of that position, absent otherwise, attached to no other error, re-parse as known; feature off: none",
-         "strsim::jaro_winkler is the trusted metric; bounds: distance 1 (quick) / 2 (thorough), 7 receivers", "DESIGN.md §4 C17"),
+         "strsim::jaro_winkler is the trusted metric; bounds: distance 1 (quick) / 2 (thorough), 13 receivers", "DESIGN.md §4 C17"),
  "C20": ("exploration", "bounded-exhaustive program enumeration decided by rustc: every generated receiver of all corpora + a name-clash corpus + generic receivers with must-compile / must-not-bound instantiations + negative capturing-closure crates",
          "rustc", "every receiver generated for the other checks and the clash corpus (50 identifiers x field kinds x configs x six traits, variant names) must compile in a module that imports nothing; generic receivers instantiated so that a missing or a superfluous bound fails the build; capturing closures must be rejected at each callable position",
          "rustc 1.95 is the authority on 'type-checks'; the option space is the generators', not random crates", "DESIGN.md §4 C20"),
